@@ -128,7 +128,7 @@ theorem textTail_inv {fx : Bool} {nv nc : Nat} (pol : Policy) (inp : Bytes) (hs 
     · split
       · exact rinv_err (codeOK_plain (.inr (.inl rfl)))
       · split
-        · exact rinv_done
+        · exact rinv_cons trivial rfl rinv_done
         · apply rinv_cons
           · trivial
           · rfl
